@@ -176,7 +176,7 @@ struct ConcRun {
     void run() {
         if (!g_modules_protected && !R.info.sanitized) {
             // static initialisers (dispatch table, Fp<>::one) have run at dlopen; from here on the replicas' image is read-only
-            for (auto rp : env.reps->all) { bool tls = false; rp->apply_dispatch(); g_protected_bytes += trap_protect_module(rp->path().c_str(), ("replica " + rp->label + " writable image (static storage)").c_str(), tls); if (tls) g_tls_modules += rp->label + " "; }
+            for (auto rp : env.reps->all) { if (!rp->handle) continue; bool tls = false; rp->apply_dispatch(); g_protected_bytes += trap_protect_module(rp->path().c_str(), ("replica " + rp->label + " writable image (static storage)").c_str(), tls); if (tls) g_tls_modules += rp->label + " "; }
             g_modules_protected = true;
         }
         env.check(g_tls_modules.empty(), "C20", "no-thread-local-storage", "replica(s) " + g_tls_modules + "have a PT_TLS segment: the library keeps thread-local state");
